@@ -47,52 +47,52 @@ theorem negScale_lower (num x b s : Nat) (hn : num < 2 ^ 64) (h : negScale num x
 
 /-- from the pipeline error bound to the quarter-ulp hypothesis of `raw_close_rat` -/
 theorem quarter_of_error (b N D k G : Nat) (hD : 0 < D) (hk : k ≤ 13) (hG : 32 ≤ G) (hb : b < 2 ^ 55 * G)
-    (e1 : b * D * 2 ^ 61 ≤ N * (2 ^ 61 + k)) (e2 : N * 2 ^ 61 ≤ (b + k) * D * (2 ^ 61 + k)) :
+    (e1 : b * D * 2 ^ 62 ≤ N * (2 ^ 62 + k)) (e2 : N * 2 ^ 62 ≤ (b + k) * D * (2 ^ 62 + k)) :
     b * D ≤ N + G * D ∧ N ≤ b * D + G * D := by
   -- first N ≤ (b + G)·D
   have hk2 : k * k ≤ 13 * k := Nat.mul_le_mul_right _ hk
   have hbk : b * k ≤ 13 * b := by rw [Nat.mul_comm]; exact Nat.mul_le_mul_right _ hk
-  have A : (b + k) * (2 ^ 61 + k) ≤ (b + G) * 2 ^ 61 := by
-    have e : (b + k) * (2 ^ 61 + k) = b * 2 ^ 61 + b * k + k * 2 ^ 61 + k * k := by ring
-    have e' : (b + G) * 2 ^ 61 = b * 2 ^ 61 + G * 2 ^ 61 := by ring
+  have A : (b + k) * (2 ^ 62 + k) ≤ (b + G) * 2 ^ 62 := by
+    have e : (b + k) * (2 ^ 62 + k) = b * 2 ^ 62 + b * k + k * 2 ^ 62 + k * k := by ring
+    have e' : (b + G) * 2 ^ 62 = b * 2 ^ 62 + G * 2 ^ 62 := by ring
     rw [e, e']
-    have : 13 * b + 13 * 2 ^ 61 + 169 ≤ G * 2 ^ 61 := by
+    have : 13 * b + 13 * 2 ^ 62 + 169 ≤ G * 2 ^ 62 := by
       have h1 : 13 * b ≤ 13 * (2 ^ 55 * G) := Nat.mul_le_mul_left _ (Nat.le_of_lt hb)
       have h2 : 13 * (2 ^ 55 * G) = 13 * 2 ^ 55 * G := by ring
-      have h3 : G * 2 ^ 61 = 64 * 2 ^ 55 * G := by rw [show (2 : Nat) ^ 61 = 64 * 2 ^ 55 by decide]; ring
-      have h4 : 13 * 2 ^ 61 + 169 ≤ 51 * 2 ^ 55 * 32 := by decide
-      have h5 : 51 * 2 ^ 55 * 32 ≤ 51 * 2 ^ 55 * G := Nat.mul_le_mul_left _ hG
-      have h6 : 64 * 2 ^ 55 * G = 13 * 2 ^ 55 * G + 51 * 2 ^ 55 * G := by ring
+      have h3 : G * 2 ^ 62 = 128 * 2 ^ 55 * G := by rw [show (2 : Nat) ^ 62 = 128 * 2 ^ 55 by decide]; ring
+      have h4 : 13 * 2 ^ 62 + 169 ≤ 115 * 2 ^ 55 * 32 := by decide
+      have h5 : 115 * 2 ^ 55 * 32 ≤ 115 * 2 ^ 55 * G := Nat.mul_le_mul_left _ hG
+      have h6 : 128 * 2 ^ 55 * G = 13 * 2 ^ 55 * G + 115 * 2 ^ 55 * G := by ring
       omega
-    have hk61 : k * 2 ^ 61 ≤ 13 * 2 ^ 61 := Nat.mul_le_mul_right _ hk
+    have hk61 : k * 2 ^ 62 ≤ 13 * 2 ^ 62 := Nat.mul_le_mul_right _ hk
     have hkk : k * k ≤ 169 := Nat.le_trans hk2 (by omega)
-    have s1 : b * k + k * 2 ^ 61 + k * k ≤ 13 * b + 13 * 2 ^ 61 + 169 :=
+    have s1 : b * k + k * 2 ^ 62 + k * k ≤ 13 * b + 13 * 2 ^ 62 + 169 :=
       Nat.add_le_add (Nat.add_le_add hbk hk61) hkk
-    calc b * 2 ^ 61 + b * k + k * 2 ^ 61 + k * k = b * 2 ^ 61 + (b * k + k * 2 ^ 61 + k * k) := by ring
-      _ ≤ b * 2 ^ 61 + G * 2 ^ 61 := Nat.add_le_add_left (Nat.le_trans s1 this) _
+    calc b * 2 ^ 62 + b * k + k * 2 ^ 62 + k * k = b * 2 ^ 62 + (b * k + k * 2 ^ 62 + k * k) := by ring
+      _ ≤ b * 2 ^ 62 + G * 2 ^ 62 := Nat.add_le_add_left (Nat.le_trans s1 this) _
   have hN : N ≤ (b + G) * D := by
-    have : N * 2 ^ 61 ≤ (b + G) * D * 2 ^ 61 := by
-      calc N * 2 ^ 61 ≤ (b + k) * D * (2 ^ 61 + k) := e2
-        _ = (b + k) * (2 ^ 61 + k) * D := by ring
-        _ ≤ (b + G) * 2 ^ 61 * D := Nat.mul_le_mul_right _ A
-        _ = (b + G) * D * 2 ^ 61 := by ring
+    have : N * 2 ^ 62 ≤ (b + G) * D * 2 ^ 62 := by
+      calc N * 2 ^ 62 ≤ (b + k) * D * (2 ^ 62 + k) := e2
+        _ = (b + k) * (2 ^ 62 + k) * D := by ring
+        _ ≤ (b + G) * 2 ^ 62 * D := Nat.mul_le_mul_right _ A
+        _ = (b + G) * D * 2 ^ 62 := by ring
     exact Nat.le_of_mul_le_mul_right this (by decide)
   refine ⟨?_, by rw [← Nat.add_mul]; exact hN⟩
   -- b·D·2^61 ≤ N·2^61 + N·k ≤ N·2^61 + (b+G)·D·k ≤ (N + G·D)·2^61
-  have B : (b + G) * k ≤ G * 2 ^ 61 := by
+  have B : (b + G) * k ≤ G * 2 ^ 62 := by
     have h1 : (b + G) * k ≤ (b + G) * 13 := Nat.mul_le_mul_left _ hk
     have h2 : (b + G) * 13 ≤ (2 ^ 55 * G + G) * 13 := Nat.mul_le_mul_right _ (by omega)
     have h3 : (2 ^ 55 * G + G) * 13 = (13 * 2 ^ 55 + 13) * G := by ring
-    have h4 : (13 * 2 ^ 55 + 13) * G ≤ 2 ^ 61 * G := Nat.mul_le_mul_right _ (by decide)
-    have h5 : 2 ^ 61 * G = G * 2 ^ 61 := Nat.mul_comm _ _
+    have h4 : (13 * 2 ^ 55 + 13) * G ≤ 2 ^ 62 * G := Nat.mul_le_mul_right _ (by decide)
+    have h5 : 2 ^ 62 * G = G * 2 ^ 62 := Nat.mul_comm _ _
     omega
-  have : b * D * 2 ^ 61 ≤ (N + G * D) * 2 ^ 61 := by
-    calc b * D * 2 ^ 61 ≤ N * (2 ^ 61 + k) := e1
-      _ = N * 2 ^ 61 + N * k := by ring
-      _ ≤ N * 2 ^ 61 + (b + G) * D * k := Nat.add_le_add_left (Nat.mul_le_mul_right _ hN) _
-      _ = N * 2 ^ 61 + (b + G) * k * D := by ring
-      _ ≤ N * 2 ^ 61 + G * 2 ^ 61 * D := Nat.add_le_add_left (Nat.mul_le_mul_right _ B) _
-      _ = (N + G * D) * 2 ^ 61 := by ring
+  have : b * D * 2 ^ 62 ≤ (N + G * D) * 2 ^ 62 := by
+    calc b * D * 2 ^ 62 ≤ N * (2 ^ 62 + k) := e1
+      _ = N * 2 ^ 62 + N * k := by ring
+      _ ≤ N * 2 ^ 62 + (b + G) * D * k := Nat.add_le_add_left (Nat.mul_le_mul_right _ hN) _
+      _ = N * 2 ^ 62 + (b + G) * k * D := by ring
+      _ ≤ N * 2 ^ 62 + G * 2 ^ 62 * D := Nat.add_le_add_left (Nat.mul_le_mul_right _ B) _
+      _ = (N + G * D) * 2 ^ 62 := by ring
   exact Nat.le_of_mul_le_mul_right this (by decide)
 
 end Qentem.StrToNum
